@@ -162,6 +162,21 @@ func buildModel(d *gen.Doc) *mnode {
 	if len(p.evs) < 3 || p.evs[0].K != rec.KBeginDocument || p.evs[1].K != rec.KVersion {
 		return nil
 	}
+	// A forward reference (to a marker that comes later) has no value until its
+	// marker arrives: whether the entry holding it counts as "completely
+	// decoded" at an earlier cut is not something the property decides. Such
+	// documents get the error and prefix checks only.
+	marked := map[string]bool{}
+	for _, e := range p.evs {
+		switch e.K {
+		case rec.KMarker:
+			marked[string(e.S)] = true
+		case rec.KReferenceLocal:
+			if !marked[string(e.S)] {
+				return nil
+			}
+		}
+	}
 	p.i = 2
 	for {
 		p.skipNoise()
